@@ -160,8 +160,8 @@ pub fn cases(prop: &str, tier: Tier, seed: u64) -> Vec<CaseDesc> {
         "C10" => {
             // cfg 27 = defaults + generate_dwarf (implies the code-transform map)
             let mut bases: Vec<String> = crate::census::leb_specs(!q);
-            bases.extend(g("tiny", if q { 40 } else { 2000 }, 0).into_iter().take(if q { 40 } else { 2000 }));
-            bases.extend(g("full", if q { 30 } else { 2000 }, 0).into_iter().take(if q { 30 } else { 2000 }));
+            bases.extend(g("tiny", 40, 500));
+            bases.extend(g("full", 30, 500));
             let mut i = 0usize;
             for b in &bases {
                 for (ver, mode) in [(4, "f"), (5, "f"), (4, "s"), (5, "s"), (5, "z")] {
